@@ -432,13 +432,134 @@ def multi_measure_prefix(rng):
     return layers, "bb" if destructive else "bqb", 3, 2
 
 
-def gen_spec(rng, max_width=4, max_depth=8, exotic=0.06, max_regs=7, multi=0.08):
+def ps_chain_prefix(rng, info=None):
+    """Two or three post-selected qubits whose tket bits get neighbouring indices, created while a
+    classical wire exists (or not: control), followed by one or two LATER `Bits(0..)` preparations
+    that make `prepare_bits` (tk.py:166-178) shift all of them at once through
+    `tk.Circuit.rename_units` (tk.py:71-83): the new index of one post-selected bit is the old
+    index of the next (chain 1->2, 2->3; with Bits(0, 0) and a measured bit in between 1->3, 3->5).
+
+    Shapes: where the classical wire comes from (Bits(0) left / right of the qubits, a measured
+    qubit left / right, none), how the post-selections are made (one Bra(n) box, single Bras at
+    different times in any order, a destructive Measure of another qubit between two Bras, a
+    non-destructive Measure followed by a Bra of the same qubit), where the later Bits go (left of
+    every bit wire = the region of finding F23 when a non-post-selected bit is to the right; right
+    of every bit wire = inside the proved fragment; in between) and how many bits they prepare.
+    `info` (a dict) receives the names of the choices made.  Returns (layers, cur, n_q, n_b)."""
+    layers, cur, tags, val = [], "", [], {}
+    n_q = n_b = 0
+
+    def add(box, off, new_tags):
+        nonlocal cur, tags
+        d, c = box_io(box)
+        assert cur[off:off + len(d)] == d and len(new_tags) == len(c), (box, off, cur)
+        layers.append((box, off))
+        cur = cur[:off] + c + cur[off + len(d):]
+        tags = tags[:off] + list(new_tags) + tags[off + len(d):]
+
+    n_ps = rng.choice([2, 2, 3])
+    wire = rng.choice(["bits_left", "bits_right", "measured_left", "measured_right", "none"])
+    n_extra = 1 if wire.startswith("measured") else 0
+    between = rng.random() < 0.3 and n_ps + n_extra + 1 + (1 if wire.startswith("bits") else 0) <= 4
+    qs = ["p%d" % i for i in range(n_ps)]
+    if between:
+        qs.insert(rng.randint(1, n_ps - 1), "x")
+    if wire == "measured_left":
+        qs.insert(0, "m")
+    if wire == "measured_right":
+        qs.append("m")
+    for t in qs:
+        val[t] = rng.choice([0, 1])
+    if wire == "bits_left":
+        add(("bits", (0,), 0), 0, ["c"])
+        n_b += 1
+    add(("ket", tuple(val[t] for t in qs)), len(cur), qs)
+    n_q += len(qs)
+    if wire == "bits_right":
+        add(("bits", (0,), 0), len(cur), ["c"])
+        n_b += 1
+    # a little entanglement / superposition, so that the post-selections are not all certain
+    if rng.random() < 0.5:
+        t = rng.choice(qs)
+        add(("gate", "H"), tags.index(t), [t])
+        val[t] = None
+        if rng.random() < 0.5:
+            off = rng.choice([i for i in range(len(cur) - 1) if cur[i:i + 2] == "qq"])
+            val[tags[off]] = val[tags[off + 1]] = None
+            add(("gate", "CX"), off, tags[off:off + 2])
+
+    def bra_val(t):
+        if val[t] is None:
+            return rng.choice([0, 1])
+        return val[t] if rng.random() < 0.92 else 1 - val[t]
+
+    def bra(ts):
+        nonlocal n_b
+        add(("bra", tuple(bra_val(t) for t in ts)), tags.index(ts[0]), [])
+        n_b += len(ts)
+
+    def measure(t, destructive):
+        nonlocal n_b
+        add(("measure", 1, 1 if destructive else 0, 0), tags.index(t), ["c"] if destructive else [t, "c"])
+        n_b += 1
+    if n_extra:
+        measure("m", True)
+    ps = [t for t in qs if t.startswith("p")]
+    if between:
+        k = qs.index("x") - (1 if wire == "measured_left" else 0)
+        how = "measure_between"
+        bra(ps[:k])
+        measure("x", True)
+        bra(ps[k:])
+    else:
+        how = rng.choice(["box", "separate", "separate", "measure_then_bra"])
+        if how == "measure_then_bra" and len(cur) + 1 > 4:
+            how = "separate"
+        if how == "box":
+            bra(ps)
+        elif how == "separate":
+            order = ps[:]
+            rng.shuffle(order)
+            for i, t in enumerate(order):
+                bra([t])
+                rest = [u for u in order[i + 1:]]
+                if rest and rng.random() < 0.3:
+                    u = rng.choice(rest)
+                    add(("gate", rng.choice(["X", "Z", "S"])), tags.index(u), [u])
+                    if val[u] is not None and layers[-1][0][1] == "X":
+                        val[u] = 1 - val[u]
+        else:
+            measure(ps[0], False)
+            bra([ps[0]])
+            bra(ps[1:])
+    # the later classical preparations
+    n_prep = 2 if wire == "none" else rng.choice([1, 2, 2])
+    where = []
+    for _ in range(n_prep):
+        if len(cur) >= 4:
+            break
+        n = rng.choice([1, 1, 2]) if len(cur) + 2 <= 4 else 1
+        off = rng.choice([0, 0, len(cur), len(cur), rng.randint(0, len(cur))])
+        where.append("left" if off == 0 and cur else "right" if off == len(cur) else "middle")
+        add(("bits", (0,) * n, 0), off, ["c"] * n)
+        n_b += n
+    if info is not None:
+        info.update(n_ps=n_ps, wire=wire, how=how, preps="+".join(where))
+    return layers, cur, n_q, n_b
+
+
+def gen_spec(rng, max_width=4, max_depth=8, exotic=0.06, max_regs=7, multi=0.08, chain=False, info=None):
     """A random circuit spec: preparations, post-selections, measurements, discards, swaps,
     gates, scalars and classical gates at arbitrary depths; 0-4 wires at every depth.
     `exotic` = share of boxes outside the exportable set (Bits with a 1, Ry, CU1, CRx,
     Controlled(T), daggered S/T); `multi` = share of circuits that start with
-    `multi_measure_prefix` (and go on at random for up to three more layers)."""
-    if rng.random() < multi:
+    `multi_measure_prefix` (and go on at random for up to three more layers); `chain` = start
+    with `ps_chain_prefix` (and go on at random for up to two more layers)."""
+    if chain:
+        dom = ""
+        layers, cur, n_q, n_b = ps_chain_prefix(rng, info)
+        depth = rng.choice([0, 0, 1, 2])
+    elif rng.random() < multi:
         dom = ""
         layers, cur, n_q, n_b = multi_measure_prefix(rng)
         depth = rng.randint(0, 3)
